@@ -231,51 +231,68 @@ def h_misc(h):
     return [r[i] for i in range(6)] if not h.symbolic or True else []
 
 
+def sp_product_ltr(f, s_):
+    """matrix of p -> s_(f(p)) from the definition of an affine map (independent
+    of Affine2D.__matmul__ / compose_ltr)"""
+    fa, fb, fc, fd, fe, ff = f
+    sa, sb, sc, sd, se, sf = s_
+    return (
+        sa * fa + sc * fb,
+        sb * fa + sd * fb,
+        sa * fc + sc * fd,
+        sb * fc + sd * fd,
+        sa * fe + sc * ff + se,
+        sb * fe + sd * ff + sf,
+    )
+
+
+def _decompose_common(h, name, first, second, A):
+    """on normal return the parts recompose to the original matrix within the
+    function's own 1e-4 self-check tolerance, entry by entry (hence
+    |second(first(p)) - self(p)| <= 1e-4*(|px|+|py|+1) for every p)"""
+    import fractions
+
+    M = sp_product_ltr(tuple(first), tuple(second))
+    tol = fractions.Fraction(1e-4)  # exactly the float DECOMPOSITION_ALMOST_EQUAL_TOLERANCE
+    for i in range(6):
+        h.check_close(M[i], A[i], tol, f"{name}.recomposes[{i}]")
+    return list(M)
+
+
 def h_decompose_translation(h):
     A2 = h.m.svg_transform.Affine2D
     A = six(h, "A")
-    p = pt(h)
     m = A2(*A)
     try:
         first, second = m.decompose_translation()
     except (ZeroDivisionError, AssertionError):
         h.tag("raised")
         return ["raised"]
-    got = second.map_point(first.map_point(p))
-    exp = sp_apply(A, p)
-    tol = 1e-4
-    bound = (h.abs(p[0]) + h.abs(p[1]) + 1) * tol * 2
-    h.check_close(got[0], exp[0], bound, "decompose_translation.x")
-    h.check_close(got[1], exp[1], bound, "decompose_translation.y")
+    obs = _decompose_common(h, "decompose_translation", first, second, A)
     # first is a pure translation, second has no translation
     for i, v in enumerate((1, 0, 0, 1)):
         h.check_eq(first[i], v, f"decompose_translation.first[{i}]")
     h.check_eq(second[4], 0, "decompose_translation.second.e")
     h.check_eq(second[5], 0, "decompose_translation.second.f")
-    return [got[0], got[1]]
+    return obs
 
 
 def h_decompose_scale(h):
     A2 = h.m.svg_transform.Affine2D
     A = six(h, "A")
-    p = pt(h)
     m = A2(*A)
     try:
         first, second = m.decompose_scale()
     except (ZeroDivisionError, AssertionError):
         h.tag("raised")
         return ["raised"]
-    got = second.map_point(first.map_point(p))
-    exp = sp_apply(A, p)
-    tol = 1e-4
-    bound = (h.abs(p[0]) + h.abs(p[1]) + 1) * tol * 2
-    h.check_close(got[0], exp[0], bound, "decompose_scale.x")
-    h.check_close(got[1], exp[1], bound, "decompose_scale.y")
+    obs = _decompose_common(h, "decompose_scale", first, second, A)
     h.check_eq(first[1], 0, "decompose_scale.first.b")
     h.check_eq(first[2], 0, "decompose_scale.first.c")
     h.check_eq(first[4], 0, "decompose_scale.first.e")
     h.check_eq(first[5], 0, "decompose_scale.first.f")
-    return [got[0], got[1]]
+    h.check(h.and_(h.le(0, first[0]), h.le(0, first[3])), "decompose_scale.scale_nonnegative")
+    return obs
 
 
 def h_tostring(h):
